@@ -20,8 +20,14 @@ StartEpisode ==
     /\ eng' = <<>> /\ F' = <<>> /\ A' = <<>>
     /\ ini' = l
     /\ LET r0 == CompileTop(Rec[l].rx) IN
-       LET lv == LiveOf(r0) IN
-       rx' = [r0 |-> r0, live |-> lv, reps |-> Reps(r0), empty |-> r0 \notin lv]
+       LET lv == LiveOf(r0)
+           reps == Reps(r0)
+           leaves == Leaves(r0)
+           sig(b) == {S \in leaves : b \in S}
+       IN
+       rx' = [r0 |-> r0, live |-> lv, reps |-> reps, empty |-> r0 \notin lv,
+              (* byte (index b+1) -> the representative of its class *)
+              cls |-> [i \in 1..256 |-> CHOOSE r \in reps : sig(r) = sig(i - 1)]]
 
 Voc(c) == Rec[ini].cfgs[c + 1]
 TokBytes(c, t) == Voc(c).tok[t + 1]
@@ -41,7 +47,14 @@ Allowed(c, st, t) ==
          /\ DS(st, TokBytes(c, t)) \in rx.live
 
 Text(c) == {t \in 0..(Voc(c).n - 1) : ~IsSpecial(c, t) \/ t = Voc(c).eos}
-ExactMask(c, st) == {t \in Text(c) : Allowed(c, st, t)}
+(* same set as {t \in Text(c) : Allowed(c, st, t)}, computed with one derivative per byte class *)
+ExactMask(c, st) ==
+    LET d1 == [r \in rx.reps |-> D(st, r)]
+        nul == Nullable(st)
+    IN  {t \in Text(c) :
+            IF t = Voc(c).eos THEN nul
+            ELSE LET w == TokBytes(c, t) IN
+                 w # <<>> /\ DS(d1[rx.cls[w[1] + 1]], Tail(w)) \in rx.live}
 
 CanExtend(st) == \E b \in rx.reps : D(st, b) \in rx.live
 
